@@ -15,6 +15,9 @@ func c19Unescape(s string) (string, bool) {
 		if c == '<' || c == '>' {
 			return "", false // raw markup must never appear in escaped text
 		}
+		if c == '\r' {
+			return "", false // a raw carriage return is turned into a line feed by every XML parser (XML 1.0 2.11)
+		}
 		if c != '&' {
 			out = append(out, c)
 			i++
